@@ -158,6 +158,9 @@ def opFsReq (args : List SExp) : Option OpResult := do
             !(resp.multi.all (fun x => match target x.1 with | some q => (lookup t q).isSome | none => false))
           then [("C03", "reported-href-does-not-address-a-resource")] else [])
         let c13 := if resp.status ≥ 500 && !faulted r && !cancelled && !abstain then [("C13", s!"{r.method}-answered-{resp.status}")] else []
+        -- C13: a Depth header that is none of the three values is refused with 4xx
+        let badDepth := (r.method = "PROPFIND" || r.method = "COPY" || r.method = "MOVE") && !(["", "0", "1", "infinity"].contains r.depth)
+        let c13 := c13 ++ (if badDepth && !(400 ≤ resp.status && resp.status < 500) then [("C13", s!"invalid-Depth-answered-{resp.status}")] else [])
         let conditional := (r.method = "PUT" || r.method = "DELETE") && (r.ifMatch != .unset || r.ifNoneMatch != .unset)
         let c04 := if conditional && (!c01.isEmpty || !c02.isEmpty) then [("C04", s!"{r.method}-precondition-answered-{resp.status}")] else []
         -- C11: the WebDAV server's PROPFIND answers (status, one response per resource in scope, refusal of a body
